@@ -383,6 +383,11 @@ fn explore_h(ctx: &Ctx, rep: &mut Report, props: &[&'static str]) {
     let d3 = if thorough { 22 } else { 16 };
     let m = AdsrM::new(1000.0, vec![0.004], vec![0.4]);
     explore(m, &ExploreCfg { max_depth: Some(d3), state_cap: 80_000_000, threads: ctx.threads, label: format!("gate/tick histories at 1 kHz with one time and one sustain level, depth {}", d3) }, rep, props);
+    // out-of-range and non-finite parameter values (they must act as the clamped value: C20; here every other
+    // oracle keeps running on envelopes configured that way)
+    let d4 = if thorough { 8 } else { 6 };
+    let m = AdsrM::new(1000.0, vec![f32::NAN, -1.0, 0.0, 1.0e9, f32::INFINITY, 0.003], vec![f32::NAN, -0.5, 2.0, f32::NEG_INFINITY, 0.25]);
+    explore(m, &ExploreCfg { max_depth: Some(d4), state_cap: 80_000_000, threads: ctx.threads, label: format!("histories with out-of-range / NaN parameter values at 1 kHz, depth {}", d4) }, rep, props);
     rep.exhaustive = false;
 }
 
